@@ -22,7 +22,7 @@ ASSUMPTIONS = ["dense reference = checker's own matrix-product contraction of th
                "is second-to-first); if it returns, the value must be right"]
 
 BIN = ("add", "sub", "mul")
-SCAL_ADD = ("int", "float", "npfloat64", "npint", "npfloat32", "t0d", "t1", "complex", "t0d_i64", "t0d_other")
+SCAL_ADD = ("int", "float", "npfloat64", "npint", "npfloat32", "t0d", "t1", "complex", "t0d_i64", "t0d_other", "npuint8", "t0d_u8")
 SCAL_MUL = ("int", "float", "npfloat64", "npint", "npfloat32", "t0d", "t1", "complex", "t0d_i64", "t0d_other")
 SCAL_LEFT = ("int", "float", "complex")
 SCAL_DIV = ("int", "float", "npfloat64", "npint", "npfloat32", "t0d", "t1", "t0d_i64", "t0d_other")
@@ -97,10 +97,26 @@ def _bshape(xd, yd):
 
 
 def execute(case):
+    # torch's global default dtype is state of the caller: a third of the non-factory cases run with float64 as default (any
+    # helper tensor the library allocates without an explicit dtype then differs from single-precision operands)
+    if case["op"] != "factory" and case["x"]["seed"] % 3 == 0:
+        old = torch.get_default_dtype()
+        torch.set_default_dtype(torch.float64)
+        try:
+            v = _execute(case)
+        finally:
+            torch.set_default_dtype(old)
+        return v
+    return _execute(case)
+
+
+def _execute(case):
     T = core.tt()
     ck = Checker()
     op = case["op"]
     ck.label("op:" + op)
+    if op != "factory" and case["x"]["seed"] % 3 == 0:
+        ck.label("default_dtype_float64")
     if op == "factory":
         return _factory(T, ck, case)
 
